@@ -30,6 +30,11 @@ pub trait HashLike: Sized + Clone + core::fmt::Debug + PartialEq + Eq + Ord + co
     fn text(&self) -> String;
     /// same value, but written over an object that held a longer, different value before
     fn build_dirty(v: &HV) -> Self;
+    /// same value, produced by a *conversion* into a destination that held a longer, different
+    /// value before (None when no such conversion exists for this value)
+    fn build_conv(_v: &HV, _which: u64) -> Option<Self> {
+        None
+    }
 }
 
 macro_rules! impl_plain {
@@ -69,6 +74,17 @@ macro_rules! impl_plain {
             }
             fn text(&self) -> String {
                 crate::util::text_of(self)
+            }
+            fn build_conv(v: &HV, which: u64) -> Option<Self> {
+                use std::any::Any;
+                // dispatch on the concrete type (the conversions are not generic over the capacity)
+                let r: Option<Box<dyn Any>> = match $name {
+                    "FuzzyHash" => conv_short_norm(v, which).map(|x| Box::new(x) as Box<dyn Any>),
+                    "RawFuzzyHash" => conv_short_raw(v, which).map(|x| Box::new(x) as Box<dyn Any>),
+                    "LongFuzzyHash" => conv_long_norm(v, which).map(|x| Box::new(x) as Box<dyn Any>),
+                    _ => conv_long_raw(v, which).map(|x| Box::new(x) as Box<dyn Any>),
+                };
+                r.and_then(|b| b.downcast::<$t>().ok()).map(|b| *b)
             }
             fn build_dirty(v: &HV) -> Self {
                 let mut d = <$t>::new_from_internals_near_raw(30, &[61, 62, 63].repeat(21), &[63, 62, 61].repeat($s2 / 3));
@@ -163,4 +179,82 @@ macro_rules! for_plain_types {
         { type $T = ssdeep::LongFuzzyHash; $body }
         { type $T = ssdeep::LongRawFuzzyHash; $body }
     }};
+}
+
+// ---- conversion-built values into dirty destinations (used by C16)
+
+fn dirty_long<const N: bool>() -> ssdeep::FuzzyHashData<64, 64, N> {
+    ssdeep::FuzzyHashData::<64, 64, N>::new_from_internals_near_raw(29, &[60, 61, 62].repeat(21), &[63, 62, 61].repeat(21))
+}
+fn dirty_short<const N: bool>() -> ssdeep::FuzzyHashData<64, 32, N> {
+    ssdeep::FuzzyHashData::<64, 32, N>::new_from_internals_near_raw(29, &[60, 61, 62].repeat(21), &[63, 62, 61].repeat(10))
+}
+
+pub fn conv_long_norm(v: &HV, which: u64) -> Option<LongFuzzyHash> {
+    match which % 3 {
+        0 if v.bh2.len() <= 32 => {
+            let s = FuzzyHash::new_from_internals_near_raw(v.log, &v.bh1, &v.bh2);
+            let mut d = dirty_long::<true>();
+            s.into_mut_long_form(&mut d);
+            Some(d)
+        }
+        1 => {
+            let mut raw = dirty_long::<false>();
+            LongFuzzyHash::new_from_internals_near_raw(v.log, &v.bh1, &v.bh2).into_mut_raw_form(&mut raw);
+            Some(raw.normalize())
+        }
+        _ => None,
+    }
+}
+pub fn conv_long_raw(v: &HV, which: u64) -> Option<LongRawFuzzyHash> {
+    match which % 3 {
+        0 if v.bh2.len() <= 32 => {
+            let s = RawFuzzyHash::new_from_internals_near_raw(v.log, &v.bh1, &v.bh2);
+            let mut d = dirty_long::<false>();
+            s.into_mut_long_form(&mut d);
+            Some(d)
+        }
+        1 => {
+            let dual = LongDualFuzzyHash::new_from_internals_near_raw(v.log, &v.bh1, &v.bh2);
+            let mut d = dirty_long::<false>();
+            dual.into_mut_raw_form(&mut d);
+            Some(d)
+        }
+        _ => {
+            if crate::oracle::model::is_normalized(&v.bh1) && crate::oracle::model::is_normalized(&v.bh2) {
+                let mut d = dirty_long::<false>();
+                LongFuzzyHash::new_from_internals_near_raw(v.log, &v.bh1, &v.bh2).into_mut_raw_form(&mut d);
+                Some(d)
+            } else {
+                None
+            }
+        }
+    }
+}
+pub fn conv_short_norm(v: &HV, which: u64) -> Option<FuzzyHash> {
+    match which % 2 {
+        0 => {
+            let l = LongFuzzyHash::new_from_internals_near_raw(v.log, &v.bh1, &v.bh2);
+            let mut d = dirty_short::<true>();
+            l.try_into_mut_short(&mut d).ok()?;
+            Some(d)
+        }
+        _ => None,
+    }
+}
+pub fn conv_short_raw(v: &HV, which: u64) -> Option<RawFuzzyHash> {
+    match which % 2 {
+        0 => {
+            let l = LongRawFuzzyHash::new_from_internals_near_raw(v.log, &v.bh1, &v.bh2);
+            let mut d = dirty_short::<false>();
+            l.try_into_mut_short(&mut d).ok()?;
+            Some(d)
+        }
+        _ => {
+            let dual = DualFuzzyHash::new_from_internals_near_raw(v.log, &v.bh1, &v.bh2);
+            let mut d = dirty_short::<false>();
+            dual.into_mut_raw_form(&mut d);
+            Some(d)
+        }
+    }
 }
